@@ -24,6 +24,10 @@ CLAIMED = {
             "Seeded search over credit policies, disposal orders and sender behaviours: a real Receiver (client side and listener side) runs against a scripted sender that stays within credit, goes exactly to the limit or overruns it, in single- and multi-frame deliveries, and occasionally restates its delivery-count. Every flow the receiver writes is checked against the delivery-count last learnt from the sender plus the deliveries completed since (feasible prefix while traffic flows, exact at quiescence) and against the credit the application asked for; a delivery beyond the issued credit must surface as the transfer-limit error and never as a delivery; with automatic credit and an application that disposes of what it receives a stream of 3n+7 deliveries must complete within a virtual deadline.",
             "Trusted: the simulator, refcodec, tokio's paused clock. Replenishment is only demanded when the application disposes of every delivery (the code replenishes on disposal).",
             "delivery-count/credit reference model, overrun => error not delivery, long-stream bounded liveness against a scripted sender", "3 C09"),
+    "C10": ("exploration",
+            "Seeded search over fragmentations: a scripted sender splits each encoded message into 1-7 transfer frames at seeded offsets (uniform and biased into section headers, length fields, first/last bytes, empty frames), varies which optional fields continuation frames repeat, interleaves a delivery on a second link, aborts at seeded positions, and in one run out of five contradicts a continuation field. At simulator-proven quiescence after each non-final frame the application must have received nothing; after the final frame exactly one message, byte-equal after re-encoding; an aborted delivery yields nothing and the next one is intact; a contradiction must end in an error, never in a message. Client-side and listener-side receivers.",
+            "Trusted: the simulator, refcodec, the crate's encoder as the source of the message bytes that are being fragmented.",
+            "exactly-once byte-exact message at the last frame only, against a scripted fragmenting sender", "3 C10"),
 }
 
 NOT_APPLICABLE = {
